@@ -787,6 +787,8 @@ func gen(seed uint64, tier string) {
 		}
 		fmt.Fprintf(out, "cc %s %d %d %s\n", op, rounds, r.Intn(1<<30), vproto.GeomToks(g))
 	}
+	// phase 4: ±0 twins, histories on one object (in-place edits between calls), member counts around 2^13..2^17
+	genPhase4(out, r, tier, emit)
 	// the nil interface value (outside the property: ToGeoJSON/Encode panic in reflect.TypeOf(nil).String()),
 	// FromGeoJSON(nil), and nil slices at every level (Encode writes [] for nil and for empty: make(...))
 	fmt.Fprintln(out, "tog NIL\nenc NIL\nrt NIL\nfromnil")
@@ -1291,6 +1293,8 @@ func impl() {
 					}
 				}
 				res = b.String()
+			case "hist":
+				res = implHist(p)
 			case "cc":
 				op := p.Next()
 				rounds := p.Int()
